@@ -11,8 +11,10 @@
 //!   phase B (oracle only): `get_stream` of every other stream type the crate exports, every
 //!           accessor named in the property's `observe_at`, every `print` (the `--dump` path).
 //! Oracle (independent of the model): no panic anywhere (`catch_unwind`, site recorded), the case
-//! ends within the time budget, the largest single allocator request is ≤ `K_SINGLE`·n + `C_SINGLE`
-//! and the total requested is ≤ `K_TOTAL`·n² + `C_TOTAL_LIN`·n + `C_TOTAL` (n = input length).
+//! ends within the time budget, and per operation the largest single allocator request is
+//! ≤ `K_SINGLE`·n + `C_SINGLE` and the total requested ≤ `K_TOTAL`·n² + `C_TOTAL_LIN`·n + `C_TOTAL`
+//! (n = input length); a worker that asks for more than 512 MiB at once / 1 GiB in total is parked
+//! by the allocator guard and reported as `alloc-runaway:<operation>`.
 //! Tie of the model's allocation log: every *exact* allocation the model predicts (≥ 256 bytes)
 //! must be among the real allocator requests of phase A (`same`).
 
@@ -177,14 +179,17 @@ fn debug_context_len(dbg: &str, after: &str) -> String {
     }
 }
 
+/// render a list; the rendering is the harness's own work and is not metered
 fn items<T>(xs: impl Iterator<Item = T>, f: impl Fn(T) -> String) -> String {
-    let mut s = String::from("ok[");
-    for x in xs {
-        s.push_str(&f(x));
-        s.push(';');
-    }
-    s.push(']');
-    s
+    meter::unmetered(|| {
+        let mut s = String::from("ok[");
+        for x in xs {
+            s.push_str(&f(x));
+            s.push(';');
+        }
+        s.push(']');
+        s
+    })
 }
 
 fn err_name(e: &Error) -> String {
@@ -194,9 +199,13 @@ fn err_name(e: &Error) -> String {
 type Dump<'a> = Minidump<'a, &'a [u8]>;
 
 fn show_dir(dump: &Dump) -> String {
-    let mut sink = Vec::new();
+    let mut sink = meter::unmetered(|| Vec::with_capacity(1024 + 400 * dump.header.stream_count.min(1 << 16) as usize));
     let _ = dump.print(&mut sink);
-    let text = String::from_utf8_lossy(&sink);
+    meter::unmetered(|| show_dir_text(dump, &sink))
+}
+
+fn show_dir_text(dump: &Dump, sink: &[u8]) -> String {
+    let text = String::from_utf8_lossy(sink);
     let mut idxs = Vec::new();
     if let Some(p) = text.find("Streams:\n") {
         for line in text[p..].lines().skip(1) {
@@ -289,7 +298,7 @@ fn show_meminfo(dump: &Dump) -> String {
 fn show_thread_names(dump: &Dump, endian_big: bool) -> String {
     match dump.get_stream::<MinidumpThreadNames>() {
         Err(e) => err_name(&e),
-        Ok(names) => {
+        Ok(names) => meter::unmetered(|| {
             // the map is private: every key is a u32 found at a 4-aligned offset of the raw stream
             let raw = dump.get_raw_stream(24).unwrap_or(&[]);
             let mut ids: Vec<u32> = raw
@@ -308,7 +317,7 @@ fn show_thread_names(dump: &Dump, endian_big: bool) -> String {
             items(ids.iter().filter_map(|id| names.get_name(*id).map(|n| (*id, n.to_string()))), |(id, n)| {
                 format!("{}={}", id, name_hex(&n))
             })
-        }
+        }),
     }
 }
 
@@ -340,14 +349,23 @@ fn show_exception(dump: &Dump) -> String {
     match dump.get_stream::<MinidumpException>() {
         Err(e) => err_name(&e),
         Ok(x) => {
+            let mut sink = meter::unmetered(|| Vec::with_capacity(8192));
+            let _ = x.print(&mut sink, None, None);
+            let ca = x.get_crash_address(Os::Windows, Cpu::X86_64);
+            meter::unmetered(|| show_exception_text(&x, &sink, ca))
+        }
+    }
+}
+
+fn show_exception_text(x: &MinidumpException, sink: &[u8], ca: u64) -> String {
+    {
+        {
             let dbg = format!("{:?}", x);
             let ctx = match dbg.rfind(", context: ") {
                 Some(p) => debug_context_len(&dbg[p..], ", context: "),
                 None => "?".into(),
             };
-            let mut sink = Vec::new();
-            let _ = x.print(&mut sink, None, None);
-            let text = String::from_utf8_lossy(&sink);
+            let text = String::from_utf8_lossy(sink);
             let mut params = Vec::new();
             for line in text.lines() {
                 if let Some(rest) = line.strip_prefix("  exception_record.exception_information[") {
@@ -357,7 +375,6 @@ fn show_exception(dump: &Dump) -> String {
                     }
                 }
             }
-            let ca = x.get_crash_address(Os::Windows, Cpu::X86_64);
             let r = &x.raw.exception_record;
             format!(
                 "ok {}/{}/{}/{}/{}/{}/p={}/ca={}",
@@ -377,7 +394,7 @@ fn show_exception(dump: &Dump) -> String {
 fn show_crashpad(dump: &Dump) -> String {
     match dump.get_stream::<MinidumpCrashpadInfo>() {
         Err(e) => err_name(&e),
-        Ok(c) => {
+        Ok(c) => meter::unmetered(|| {
             let dict = |d: &std::collections::BTreeMap<String, String>| {
                 let items: Vec<String> = d.iter().map(|(k, v)| format!("{}:{}", hex(k.as_bytes()), hex(v.as_bytes()))).collect();
                 format!("[{}]", items.join(","))
@@ -403,7 +420,7 @@ fn show_crashpad(dump: &Dump) -> String {
             }
             s.push(']');
             s
-        }
+        }),
     }
 }
 
@@ -711,12 +728,15 @@ fn run_case(all: &[u8], shared: &Arc<meter::Shared>) -> CaseOut {
             let mut present = 0;
             let mut add = |o: &mut Out, tag: &str, what: &str, f: &dyn Fn() -> String| {
                 let s = o.guard(what, f).unwrap_or_else(|| "PANIC".into());
-                let class = if s.starts_with("ok") { "ok" } else { s.as_str() };
-                if class != "err StreamNotFound" {
-                    present += 1;
-                    o.tags.push(format!("{tag}={}", class.replace(' ', "-")));
-                }
-                parts.push(format!("{tag}:{s}"));
+                // the harness's own bookkeeping is not charged to the code under test
+                meter::unmetered(|| {
+                    let class = if s.starts_with("ok") { "ok" } else { s.as_str() };
+                    if class != "err StreamNotFound" {
+                        present += 1;
+                        o.tags.push(format!("{tag}={}", class.replace(' ', "-")));
+                    }
+                    parts.push(format!("{tag}:{s}"));
+                });
             };
             add(&mut o, "thr", "get_stream::<MinidumpThreadList>", &|| show_threads(&dump));
             add(&mut o, "mod", "get_stream::<MinidumpModuleList>", &|| show_modules(&dump));
@@ -736,9 +756,11 @@ fn run_case(all: &[u8], shared: &Arc<meter::Shared>) -> CaseOut {
                     None => "none",
                 })
                 .unwrap_or("PANIC");
-            parts.push(format!("getmem:{gm}"));
             nontrivial = present > 0;
-            line = parts.join(" | ");
+            line = meter::unmetered(|| {
+                parts.push(format!("getmem:{gm}"));
+                parts.join(" | ")
+            });
             dump_opt = Some(dump);
         }
     }
@@ -1266,6 +1288,10 @@ fn crafted_dump(rng: &mut Rng, be: bool) -> Vec<u8> {
             w.u32(*rng.pick(&[16u32, 0, 4, u32::MAX]));
             w.u32(*rng.pick(&[at, 0, 32, u32::MAX, at + 4]));
         }
+        // trailing bytes: the list rule accepts exactly 0 or 4 bytes beyond count * size + 4
+        for _ in 0..*rng.pick(&[0u32, 0, 0, 4, 8, 8, 12, 1]) {
+            w.buf.push(0);
+        }
         dir.push((5, w.here() - at, at));
     }
     // thread names with wild 64-bit RVAs
@@ -1276,6 +1302,9 @@ fn crafted_dump(rng: &mut Rng, be: bool) -> Vec<u8> {
         for i in 0..n {
             w.u32(0x300 + (i % 2));
             w.u64(*rng.pick(&[s_obj as u64, s_type as u64, u64::MAX, 1 << 32, at as u64, 0]));
+        }
+        for _ in 0..*rng.pick(&[0u32, 0, 0, 4, 8, 8, 16]) {
+            w.buf.push(0);
         }
         dir.push((24, w.here() - at, at));
     }
@@ -1520,8 +1549,9 @@ impl Engine for Read {
          handle descriptors with object-info chains, memory64, thread info; the in-tree testdata/*.dmp), both byte orders; truncations; \
          header/directory/stream fields replaced by 0,1,len-1,len,len+1,2^31,2^32-1; cyclic and self-referential RVAs; byte flips. \
          Non-trivial: the header parses and at least one modelled stream type is present in the directory (its read may fail). \
-         Oracle: no panic, time budget, largest request <= 64n+64KiB, total <= 64n^2+4096n+4MiB; model: outcome class and parsed numbers \
-         of Minidump::read + 10 stream readers + exception print loop; model's exact allocations must occur among the real requests. \
+         Oracle (per operation): no panic, time budget, largest request <= 32n+64KiB, total <= 2n^2+1024n+4MiB, never > 1 GiB (allocator guard); \
+         model: outcome class and parsed numbers of Minidump::read + 11 stream readers (incl. Crashpad info) + exception print loop + crash address; \
+         the model's exact allocations must occur among the real allocator's requests. \
          Oracle-only (not modelled): all other streams, contexts, every print, every accessor."
             .into()
     }
